@@ -4,7 +4,6 @@ S=/var/tmp/vxs; D=/verif/.deps
 SD=$(python3 /verif/tools/runner.py --build-support | grep support-dir | cut -d' ' -f2); cp $SD/* $S/
 rm -rf $S/repo && rsync -a --exclude target --exclude .git /repo/ $S/repo/
 cd /verif
-python3 tools/splice.py $S/repo contracts/mpd_protocol/*.vspec > $S/report.json || exit 2
+VX_UNIT=${VX_UNIT:-P} python3 tools/splice.py $S/repo contracts/mpd_protocol/*.vspec > $S/report.json || exit 2
 cd $S/repo
-TOK=${TOK:-$(ls $D/libtokio-*.rlib)}
-verus --crate-type=lib --edition=2024 --crate-name mpd_protocol -L dependency=$D -L dependency=$S --extern ahash=$(ls $D/libahash-*.rlib) --extern bytes=$(ls $D/libbytes-*.rlib) --extern nom=$(ls $D/libnom-*.rlib) --extern tracing=$(ls $D/libtracing-*.rlib) --extern tokio=$TOK $TOKIMP --extern vx_base=$S/libvx_base.rlib --import vx_base=$S/vx_base.vir --extern vx_spec=$S/libvx_spec.rlib --import vx_spec=$S/vx_spec.vir --cfg 'feature="async"' "$@" mpd_protocol/src/lib.rs 2>&1 | grep -v "^warning: unused\|^warning: unnecessary" | grep -B2 -A14 "^error\|verification results" | head -${HEAD:-120}
+verus --crate-type=lib --edition=2024 --crate-name mpd_protocol -L dependency=$D -L dependency=$S --extern ahash=$(ls $D/libahash-*.rlib) --extern bytes=$(ls $D/libbytes-*.rlib) --extern nom=$(ls $D/libnom-*.rlib) --extern tracing=$(ls $D/libtracing-*.rlib) --extern tokio=$S/libtokio.rlib --import tokio=$S/vx_tokio.vir --extern vx_base=$S/libvx_base.rlib --import vx_base=$S/vx_base.vir --extern vx_spec=$S/libvx_spec.rlib --import vx_spec=$S/vx_spec.vir --cfg 'feature="async"' "$@" mpd_protocol/src/lib.rs 2>&1 | grep -v "^warning: unused\|^warning: unnecessary" | grep -B2 -A14 "^error\|verification results" | head -${HEAD:-120}
